@@ -756,6 +756,15 @@ def parse_compute_size(T, ctx, name, argtype, body):
 
 # ------------------------------------------------------------------------------------------------
 
+def write_if_changed(path, text, written):
+    """lake/cargo rebuild on content (lake) or mtime (cargo): never touch a file whose text is unchanged"""
+    written.add(os.path.abspath(path))
+    if os.path.exists(path) and open(path).read() == text:
+        return False
+    with open(path, "w") as f:
+        f.write(text)
+    return True
+
 def module_paths(repo):
     """generated file stem -> rust module path(s) that include! it"""
     out = {}
@@ -874,7 +883,7 @@ def main():
         residual = src
         for (st, en) in sorted(spans, reverse=True):
             residual = residual[:st] + " " * (en - st) + residual[en:]
-        for mt, tbody, tend in find_item(residual, r"impl<'a(?:,\s*T)?(?:: [^>]*)?>\s+SomeTable<'a>\s+for\s+(\w+)<'a(?:,\s*T)?>\s*\{"):
+        for mt, tbody, tend in find_item(residual, r"impl<'a(?:,\s*T(?::[^{;]*?)?)?>\s+SomeTable<'a>\s+for\s+(\w+)<'a(?:,\s*T)?>\s*\{"):
             n_unw = len(re.findall(r"\.unwrap\(\)", tbody))
             traversal.append({"file": stem, "table": mt.group(1), "unwraps": n_unw})
             residual = residual[:mt.start()] + " " * (tend - mt.start()) + residual[tend:]
@@ -892,8 +901,7 @@ def main():
 
     # ---------------------------------------------------------------- emit Lean
     os.makedirs(a.out, exist_ok=True)
-    for old in glob.glob(os.path.join(a.out, "ReadShapes*.lean")):
-        os.remove(old)
+    written = set()
     chunks = [[] for _ in range(a.chunks)]
     for i, sh in enumerate(shapes):
         chunks[i % a.chunks].append(sh)
@@ -916,7 +924,7 @@ def main():
             lines.append("")
             obligations += 1
         lines.append("end FontVerif.Gen.ReadShapes")
-        open(os.path.join(a.out, f"ReadShapes{k}.lean"), "w").write("\n".join(lines) + "\n")
+        write_if_changed(os.path.join(a.out, f"ReadShapes{k}.lean"), "\n".join(lines) + "\n", written)
     reg = ["/- GENERATED by translate/shapes.py — registry of all generated table readers -/"]
     for k in range(a.chunks):
         reg.append(f"import FontVerif.Gen.ReadShapes{k}")
@@ -935,7 +943,11 @@ def main():
     reg.append("]")
     reg.append("")
     reg.append("end FontVerif.Gen.ReadShapes")
-    open(os.path.join(a.out, "ReadShapes.lean"), "w").write("\n".join(reg) + "\n")
+    write_if_changed(os.path.join(a.out, "ReadShapes.lean"), "\n".join(reg) + "\n", written)
+    # stale chunk files of an earlier run with a different --chunks
+    for old in glob.glob(os.path.join(a.out, "ReadShapes*.lean")):
+        if os.path.abspath(old) not in written:
+            os.remove(old)
 
     # ---------------------------------------------------------------- emit Rust dispatch
     if a.rust:
@@ -1000,7 +1012,7 @@ def emit_rust(path, shapes, mods, T):
         n += 1
     L.append("    v")
     L.append("}")
-    open(path, "w").write("\n".join(L) + "\n")
+    write_if_changed(path, "\n".join(L) + "\n", set())
 
 def full_ty(t, mod):
     if t in BUILTIN:
